@@ -151,7 +151,7 @@ Lemma check_type_same t : check_type [] rn1 [] t = check_type [] rn2 [] t.
 Proof.
   induction t as [id|id ps IH|t IH|t n IH|t IH|k v IHk IHv|t IH|p] using rtype_ind'; cbn [check_type].
   - now rewrite resolve_same.
-  - f_equal. induction IH as [|x r Hx _ IHr]; cbn [map]; [reflexivity|]. now rewrite Hx, IHr.
+  - rewrite resolve_same. f_equal. induction IH as [|x r Hx _ IHr]; cbn [map]; [reflexivity|]. now rewrite Hx, IHr.
   - now rewrite IH.
   - now rewrite IH.
   - now rewrite IH.
@@ -167,6 +167,8 @@ Proof. destruct v as [sh|t sh|fs sh]; cbn [check_variant]; [reflexivity|now rewr
   f_equal. apply map_ext. apply check_field_same. Qed.
 Lemma check_eshared_same sh : check_eshared [] rn1 [] sh = check_eshared [] rn2 [] sh.
 Proof. unfold check_eshared. f_equal. apply map_ext. apply check_variant_same. Qed.
+Lemma check_const_same c : check_const [] rn1 [] c = check_const [] rn2 [] c.
+Proof. unfold check_const. now rewrite check_type_same. Qed.
 
 (* ---------- the theorem ---------- *)
 Definition same_items (p q : parsed) : Prop :=
@@ -222,7 +224,9 @@ Proof.
   - rewrite <- (map_ext _ _ fix_alias_same (p_aliases pd2)).
     apply stable_sort_unique; [apply Permutation_map; apply perm_aliases|].
     rewrite map_map. exact Da.
-  - apply stable_sort_unique; [apply perm_consts|exact Dc].
+  - rewrite <- (map_ext _ _ check_const_same (p_consts pd2)).
+    apply stable_sort_unique; [apply Permutation_map; apply perm_consts|].
+    rewrite map_map. exact Dc.
 Qed.
 End Perm.
 
